@@ -1210,7 +1210,10 @@ func (r Reference) ObjValue() Object {
 	if log.LogDebug() {
 		log.Debugf("Reference Value() %s -> %s", r.Name, r.RefEnv.store[r.Name].Inspect())
 	}
-	v := r.RefEnv.store[r.Name]
+	v, ok := r.RefEnv.store[r.Name]
+	if !ok {
+		return NULL // the referenced variable was deleted: never hand out a nil Object.
+	}
 	if v == r {
 		panic("Self reference")
 	}
